@@ -47,6 +47,14 @@ theorem fieldShift_angular (h0 : (RealLike.ofInt 0 : R) = 0) (thx thy z wl du0 d
   simp only [fieldShift, foldShift, List.foldl_cons, List.foldl_nil, TiltEl.shift, Gen.tiltShift, Gen.fieldShiftOut, Gen.fieldShiftIJ, h0, if_true]
   refine Prod.ext ?_ ?_ <;> simp only <;> ring
 
+/-- **Scale invariance of the displacement.** Multiplying the focal length and the output pixel scales by the same factor
+`k ≠ 0` (a change of length unit) leaves the displacement in output samples unchanged. -/
+theorem fieldShift_scale_invariant (h0 : (RealLike.ofInt 0 : R) = 0) (k thx thy z wl du0 du1 : R) (os : Int) (hk : k ≠ 0) :
+    fieldShift [TiltEl.angular thx thy] (k * z) wl (k * du0) (k * du1) os true =
+      fieldShift [TiltEl.angular thx thy] z wl du0 du1 os true := by
+  rw [fieldShift_angular h0, fieldShift_angular h0]
+  refine Prod.ext ?_ ?_ <;> simp only <;> field_simp
+
 /-- `Wavefront(tilt=[a, b])` and `Wavefront() * Tilt(a, b)` put the same element in the field's tilt list; with further
 elements in between only the order differs, which does not matter -/
 theorem wavefront_tilt_is_tilt_plane (h0 : (RealLike.ofInt 0 : R) = 0) (a b : R) (planes : List (TiltEl R)) (z wl : R) :
@@ -148,6 +156,13 @@ theorem opd_ramp_is_rampField (hcast : ∀ n : Int, (RealLike.ofInt n : R) = (n 
   congr 2
   field_simp
   ring
+
+/-- **The phasor does not depend on the length unit**: scaling OPD and wavelength by the same `k ≠ 0` gives the same field -/
+theorem phasor_scale_invariant (amp : Int → Int → K) (opd : Int → Int → R) (wl k : R) (hk : k ≠ 0) (s0 s1 o0 o1 x y : Int) :
+    (phasorField amp (fun x y => k * opd x y) (k * wl) s0 s1 o0 o1).arr.get x y = (phasorField amp opd wl s0 s1 o0 o1).arr.get x y := by
+  simp only [phasorField]
+  congr 2
+  field_simp
 
 /-- **Tilt plane ≡ Wavefront(tilt) ≡ fit_tilt as metadata.** The three ways of carrying a tilt `(a, b)` as metadata put the
 same value in the field's tilt list up to position — `Wavefront(tilt=[a, b])` first, a `Tilt(a, b)` plane last, or the
